@@ -7,6 +7,7 @@ from pyvc.state import static_ref
 
 def register(K):
     register_collections(K)
+    register_streams(K)
     K.fieldsof("file", mode="str", path="val", closed="bool")
 
     @K.external("open")
@@ -90,5 +91,73 @@ def register_collections(K):
     @K.external_method("defaultdict", "__getitem__")
     def _dd_get(eng, st, recv, args, kw, node):
         # write-only sink in fickling (results_by_analysis is never read): the looked-up list is an object owned by the defaultdict
-        return [(st, vref(st.new_list(fresh("dd_items", __import__("pyvc.sorts", fromlist=["SeqV"]).SeqV)), cls="list"))]
+        return [(st, vref(st.alloc("ddvalue"), cls="ddvalue"))]
+
+    for meth in ("append", "extend", "__setitem__"):
+        @K.external_method("ddvalue", meth)
+        def _dd_sink(eng, st, recv, args, kw, node):
+            return [(st, VNONE)]
     K.trusted.append(("collections.defaultdict", "contents not modelled: a lookup yields a list owned by the defaultdict (write-only sink in fickling)"))
+
+
+def register_streams(K):
+    """binary streams (file objects, sys.stdin.buffer, BytesIO): content and position are ghost fields.
+    Assumed contract of the stream protocol: read(n) returns the next <= n bytes and advances; seek/tell move/report the position."""
+    from pyvc.sorts import Bytes
+    K.fieldsof("stream", content="bytes", position="int", written="bytes", is_seekable="bool")
+    for nm in ("sys.stdin", "sys.stdout", "sys.stderr", "sys.stdin.buffer", "sys.stdout.buffer"):
+        pass
+
+    def std(name):
+        def f(eng, st, *a):
+            return vref(static_ref("stream:" + name), cls="stream")
+        return f
+    K.external_attr("sys", "stdin")(std("sys.stdin"))
+    K.external_attr("sys", "stdout")(std("sys.stdout"))
+    K.external_attr("sys", "stderr")(std("sys.stderr"))
+
+    @K.external_attr("stream", "buffer")
+    def _buffer(eng, st, v):
+        r = z3.simplify(v.t)
+        return vref(static_ref(f"stream:buffer-of-{r}"), cls="stream")
+
+    @K.external_attr("sys", "argv")
+    def _argv(eng, st):
+        return vref(st.new_list(fresh("sys_argv", __import__("pyvc.sorts", fromlist=["SeqV"]).SeqV)), cls="list", elem="str")
+
+    @K.external_attr("sys", "version_info")
+    def _vi(eng, st):
+        return V("tuple", xs=[vint(3), vint(12)])
+
+    @K.external_method("stream", "close")
+    def _sclose(eng, st, recv, args, kw, node):
+        st.log.append(("close", recv.cls, recv.t))
+        return [(st, VNONE)]
+
+    @K.external_method("stream", "isatty")
+    def _isatty(eng, st, recv, args, kw, node):
+        return [(st, vbool(fresh("isatty", Bool)))]
+
+    @K.external_method("stream", "write")
+    def _swrite(eng, st, recv, args, kw, node):
+        r = eng.as_ref(recv, st)
+        b = args[0]
+        st.log.append(("write", recv, b, getattr(node, "lineno", 0)))
+        if b.k == "bytes":
+            st.write("stream.written", r, z3.Concat(st.read("stream.written", r, Bytes), b.t), Bytes)
+        return [(st, vint(fresh("nwritten")))]
+
+    @K.external_method("stream", "read")
+    def _sread(eng, st, recv, args, kw, node):
+        st.log.append(("effect", "read(arg)", "stream.read", getattr(node, "lineno", 0)))
+        st.log.append(("read", recv, getattr(node, "lineno", 0)))
+        return [(st, V("bytes", fresh("read_bytes", Bytes)))]
+
+    @K.external_method("stream", "seek")
+    def _sseek(eng, st, recv, args, kw, node):
+        st.log.append(("effect", "seek(arg)", "stream.seek", getattr(node, "lineno", 0)))
+        return [(st, vint(fresh("pos")))]
+
+    @K.external_method("stream", "tell")
+    def _stell(eng, st, recv, args, kw, node):
+        return [(st, vint(fresh("pos")))]
